@@ -78,10 +78,20 @@ def ray_pairs(shape):
     return _RAYCACHE[shape]
 
 
+def _exact(a, b, op):
+    """the binary floating-point operation on two floats is exact"""
+    fa, fb = float(a), float(b)
+    return fractions.Fraction(fa * fb if op == "*" else fa / fb) == (a * b if op == "*" else a / b)
+
+
 def round_half_exact(edge, pixel_size, resolution, margin=1e-9):
     """round(edge*pixel_size/resolution) in exact rational arithmetic on the given binary floats.
-    Returns (pixels, None) or (None, reason) when the value is a rounding tie / too close to one to be decided
-    independently of the floating-point evaluation order (ties are excluded from the property's workload)."""
+    Returns (pixels, None), or (None, reason) when the value cannot be decided independently of the rounding rule /
+    the floating-point evaluation order:
+      * an EXACT tie k + 1/2 with k ODD is decided: round-half-even and round-half-up both give k + 1 (required
+        additionally: edge*pix, pix/res and edge/res are exact float operations, so every evaluation order of
+        box*pixel_size/resolution yields exactly k + 0.5);
+      * an exact tie with k EVEN (half-even: k, half-up: k + 1) and inexact near-ties stay undecided."""
     try:
         e, p, r = (fractions.Fraction(float(v)) for v in (edge, pixel_size, resolution))
     except (TypeError, ValueError, OverflowError):
@@ -93,9 +103,32 @@ def round_half_exact(edge, pixel_size, resolution, margin=1e-9):
         return None, "huge"
     fl = q.numerator // q.denominator
     frac = q - fl
-    if abs(frac - fractions.Fraction(1, 2)) <= fractions.Fraction(margin) * max(1, fl):
-        return None, "tie"
-    return int(fl + (1 if frac > fractions.Fraction(1, 2) else 0)), None
+    half = fractions.Fraction(1, 2)
+    if frac == half:
+        if fl % 2 == 1 and _exact(e, p, "*") and _exact(p, r, "/") and _exact(e, r, "/"):
+            return int(fl + 1), None
+        return None, "tie with even floor (rounding rule dependent)" if fl % 2 == 0 else "tie, inexact float evaluation"
+    if abs(frac - half) <= fractions.Fraction(margin) * max(1, fl):
+        return None, "near-tie"
+    return int(fl + (1 if frac > half else 0)), None
+
+
+DYADIC_PIX = (0.25, 0.5, 0.75, 1.0, 1.25, 1.5, 1.75, 2.0, 2.5, 3.0, 3.5, 4.0, 5.0, 6.0, 7.0)
+DYADIC_RES = (0.5, 1.0, 2.0, 4.0, 8.0, 16.0, 32.0, 64.0, 128.0)
+
+
+def odd_floor_ties(n0):
+    """all (pixel_size, resolution, pixels) with n0*pix/res == k + 1/2 exactly, k odd, 1 <= k+1 <= n0//2, drawn from
+    exactly representable dyadic pixel sizes and power-of-two resolutions (every float operation exact)."""
+    out = []
+    for pix in DYADIC_PIX:
+        for res in DYADIC_RES:
+            q = fractions.Fraction(n0) * fractions.Fraction(pix) / fractions.Fraction(res)
+            fl = q.numerator // q.denominator
+            if q - fl == fractions.Fraction(1, 2) and fl % 2 == 1 and 1 <= fl + 1 <= n0 // 2:
+                if round_half_exact(n0, pix, res)[0] == fl + 1:
+                    out.append((pix, res, int(fl + 1)))
+    return out
 
 
 class Gain:
